@@ -10,6 +10,7 @@ from .core import Repo, Check, AnalysisError
 
 VERIF = os.path.dirname(os.path.dirname(os.path.abspath(__file__)))
 KNOWN = os.path.join(VERIF, "KNOWN_FINDINGS.txt")
+OUT = os.environ.get("VERIF_OUT") or VERIF   # evidence/replay root (the seed sweep redirects it so committed evidence is not overwritten)
 PROPS = [f"C{i:02d}" for i in range(1, 21)]
 
 
@@ -99,8 +100,8 @@ def main(argv=None):
         tier = argv[1] if len(argv) > 1 else os.environ.get("VERIF_TIER", "quick")
         want = None
     t0 = time.time()
-    os.makedirs(os.path.join(VERIF, "evidence", "replay"), exist_ok=True)
-    ev_path = os.path.join(VERIF, "evidence", f"{prop}.json")
+    os.makedirs(os.path.join(OUT, "evidence", "replay"), exist_ok=True)
+    ev_path = os.path.join(OUT, "evidence", f"{prop}.json")
     try:
         repo = Repo()
         ck = run_property(prop, repo, tier)
@@ -137,7 +138,7 @@ def main(argv=None):
         else:
             new.append(v)
     for i, v in enumerate(new):
-        rp = os.path.join(VERIF, "evidence", "replay", f"{prop}-{i}.json")
+        rp = os.path.join(OUT, "evidence", "replay", f"{prop}-{i}.json")
         with open(rp, "w") as fh:
             json.dump({"property_id": prop, "key": v["key"], **v}, fh, indent=1, default=str)
         print(f"  {v['rule']} at {v['site']}:{v.get('line')}: {v['construct']}\n      -> {v['detail']}")
